@@ -41,6 +41,8 @@ static const Test tests[] = {
   {"sc_fence_no_hb", 2, true}, // 17 seq_cst fences alone do not order plain accesses: race expected
   {"cowr", 2, false},          // 18 forbidden: read own write coherence
   {"scfence_store_load", 2, false}, // 19 store; sc-fence || sc-fence; load pattern (HP style) forbidden both miss
+  {"corr_hb_reread", 3, false},     // 20 forbidden: read-read coherence through happens-before must survive a second read of the
+                                    //    same store by the signalling thread (the obligation is tied to its EARLIEST read)
 };
 constexpr int NT = sizeof(tests) / sizeof(tests[0]);
 
@@ -150,6 +152,11 @@ public:
         if (ti == 0) { x.store(1, std::memory_order_release); std::atomic_thread_fence(std::memory_order_seq_cst); r1 = y.load(std::memory_order_acquire); }
         else { y.store(1, std::memory_order_relaxed); std::atomic_thread_fence(std::memory_order_seq_cst); r1 = x.load(std::memory_order_relaxed); }
         break;
+      case 20:
+        if (ti == 0) x.store(1, std::memory_order_relaxed);
+        else if (ti == 1) { r1 = x.load(std::memory_order_relaxed); y.store(1, std::memory_order_release); r2 = x.load(std::memory_order_relaxed); }
+        else { r1 = y.load(std::memory_order_acquire); r2 = x.load(std::memory_order_relaxed); }
+        break;
     }
     op_end(1, r1, r2);
   }
@@ -172,6 +179,7 @@ public:
       case 9: forbidden = r1[2] == 2 && r2[2] != 42; break;
       case 11: forbidden = r1[0] == 1 && r1[1] == 1; break;
       case 18: forbidden = r1[0] == 0 || r1[1] == 0; break;
+      case 20: forbidden = r1[1] == 1 && r1[2] == 1 && r2[2] == 0; break;
       default: break;
     }
     if (forbidden) c.fail("litmus-forbidden", "test %s produced a forbidden outcome r1=[%d,%d,%d,%d] r2=[%d,%d,%d,%d]", tests[cfgi].name, r1[0], r1[1], r1[2], r1[3], r2[0], r2[1], r2[2], r2[3]);
